@@ -114,13 +114,14 @@ use vstd::std_specs::iter::IteratorSpec;''')
         f'[C17:index-reject-section-kind] ({{ {L} b.len > 0 && n <= 8 && !{KOK} ==> res is Err }})',
         f'[C17:index-reject-truncated] ({{ {L} 0 < b.len < total ==> res is Err }})',
         f'[C17:index-accept] ({{ {L} b.len >= total && {VOK} && {SOK} && n <= 8 && {KOK} ==> res is Ok }})',
-    ], loops={0: 'invariant sections@.len() == 8, section_count <= 8, section_count == b0.u(4, 4), version == 2 || version == 5, '
-                 'adv(b0, input.rv(), (16 + 12 * slot_count + 4 * i) as nat), '
-                 'forall|j: int| 0 <= j < i ==> index_section_kind(version, #[trigger] b0.u(16 + 12 * slot_count + 4 * j, 4)) == Some(sections@[j]),'},
-        before=[('if input.is_empty() {', 'let ghost b0 = input.rv();'),
+    ], loops={0: 'invariant sections@.len() == 8, section_count <= 8, version == 2 || version == 5, '
+                 'adv(b0, input.rv(), (gt0 + 4 * i) as nat), '
+                 'forall|j: int| 0 <= j < i ==> index_section_kind(version, #[trigger] b0.u(gt0 + 4 * j, 4)) == Some(sections@[j]),'},
+        before=[('if input.is_empty() {', 'let ghost b0 = input.rv(); let ghost gn = b0.u(4, 4); let ghost gu = b0.u(8, 4); let ghost gs = b0.u(12, 4); let ghost gt0 = 16 + 12 * gs; let ghost gt1 = gt0 + 4 * gn;'),
                 ('if slot_count != 0 && (', 'proof { lemma_pow2_mask_test(slot_count); }'),
+                ('let hash_ids = input.split(', 'assert(section_count == gn && unit_count == gu && slot_count == gs);'),
                 ('let offsets = input.split(', 'proof { assert(0 <= (unit_count as int) * (section_count as int) <= 0xffff_ffff * 8) by (nonlinear_arith) requires 0 <= unit_count <= 0xffff_ffff, 0 <= section_count <= 8; }')],
-        after=[('let section = input.read_u32()?;', 'assert(section as nat == b0.u(16 + 12 * slot_count + 4 * i, 4));')],
+        after=[('let section = input.read_u32()?;', 'assert(section as nat == b0.u(gt0 + 4 * i, 4));')],
         # the postconditions speak about the by-value parameter `input`, which the loop invariant cannot name
         # (inside the body `input` is the mutable local): the loop inherits the facts established before it
         attrs='#[verifier::loop_isolation(false)]')
@@ -132,7 +133,17 @@ use vstd::std_specs::iter::IteratorSpec;''')
         f'[C17:find-sound] res matches Some(r) ==> exists|s: int| 0 <= s < {N} && self.id_at(s) == id && self.row_at(s) == r',
         '[C17:find-absent] !present(self.ids(), id as nat) ==> res is None',
         f'[C17:find-is-scan] open_addressed(self.ids()) && id != 0 ==> forall|s: int| 0 <= s < {N} && self.id_at(s) == id ==> res == Some(self.row_at(s) as u32)',
-    ], canary=True)
+    ], canary=True,
+        loops={0: 'invariant self.wf(), self.slot_count != 0, mask == self.slot_count - 1, is_pow2_u32(self.slot_count), '
+                  'self.slot_count == self.v_slot_count(), 0 <= vit.index@ <= self.slot_count, '
+                  'hash1 as int == probe(id, self.slot_count as int, vit.index@ as int), hash1 <= mask, '
+                  'hash2 as int == probe_stride(id, self.slot_count as int), hash2 <= mask + 1, '
+                  'search(self.ids(), self.rows(), id, 0) == search(self.ids(), self.rows(), id, vit.index@ as int),'},
+        before=[('if self.slot_count == 0 {', 'proof { lemma_search_sound(self.ids(), self.rows(), id, 0); if open_addressed(self.ids()) && id != 0 { lemma_search_is_scan(self.ids(), self.rows(), id); } }'),
+                ('let mut hash1 = id & mask;', 'proof { lemma_mask_is_mod(id, self.slot_count); lemma_mask_is_mod(id >> 32, self.slot_count); lemma_stride(id, self.slot_count); }'),
+                ('hash1 = (hash1 + hash2) & mask;', 'proof { lemma_mask_is_mod((hash1 + hash2) as u64, self.slot_count); }')])
+    # the loop counter of `for _ in 0..n` is only nameable through Verus' ghost iterator handle (pure ghost syntax)
+    imp.insert_after('for _ in ', 'vit: ')
     sk.add('read::index', imp)
     sk.add('read::index', ix.item(r'^pub struct UnitIndexSectionIterator<', label='UnitIndexSectionIterator').clean(rejrec=['R']))
     nx = ix.item(r"^impl<'index, R: Reader> Iterator for UnitIndexSectionIterator<", label='UnitIndexSectionIterator')
